@@ -581,6 +581,15 @@ pub fn run_property(prop: &Property, tier: Tier, seed: u64) -> i32 {
     for n in names {
         let rel = format!("replays/{n}");
         let path = format!("{VERIF_DIR}/{rel}");
+        // a property served by two engines: replays of the other engine's parts are not ours
+        if let Ok(text) = std::fs::read_to_string(&path) {
+            if let Ok(v) = serde_json::from_str::<Value>(&text) {
+                let part = v["part"].as_str().unwrap_or("");
+                if !prop.parts.iter().any(|p| p.name() == part) && std::env::var_os("VERIF_EVIDENCE_NAME").is_some() | std::env::var_os("VERIF_EVIDENCE_MERGE").is_some() {
+                    continue;
+                }
+            }
+        }
         regression += 1;
         match replay_file(prop, &path) {
             Err(e) => {
@@ -660,6 +669,31 @@ pub fn run_property(prop: &Property, tier: Tier, seed: u64) -> i32 {
             "excluded_known": r.excluded_known, "exhaustive": r.exhaustive, "wall_s": r.wall_s,
         }));
     }
+    // fold in the partial evidence of another engine, if asked to
+    if let Ok(other) = std::env::var("VERIF_EVIDENCE_MERGE") {
+        if let Ok(text) = std::fs::read_to_string(format!("{VERIF_DIR}/evidence/{other}.json")) {
+            if let Ok(o) = serde_json::from_str::<Value>(&text) {
+                evaluations += o["coverage"]["evaluations"].as_u64().unwrap_or(0);
+                distinct += o["coverage"]["distinct_nontrivial"].as_u64().unwrap_or(0);
+                if let Some(ps) = o["coverage"]["parts"].as_array() {
+                    parts_json.extend(ps.iter().cloned());
+                }
+                if let Some(ss) = o["coverage"]["samples"].as_array() {
+                    samples.extend(ss.iter().cloned());
+                }
+                if let Some(ls) = o["coverage"]["labels"].as_object() {
+                    for (k, v) in ls {
+                        labels.insert(k.clone(), v.clone());
+                    }
+                }
+                if let Some(r) = o["coverage"]["rule"].as_str() {
+                    rules.push(r.to_string());
+                }
+                violations += o["violations"].as_i64().unwrap_or(0);
+            }
+            let _ = std::fs::remove_file(format!("{VERIF_DIR}/evidence/{other}.json"));
+        }
+    }
     let ev = json!({
         "property_id": prop.id,
         "tier": tier.name(),
@@ -684,7 +718,9 @@ pub fn run_property(prop: &Property, tier: Tier, seed: u64) -> i32 {
     });
     let dir = format!("{VERIF_DIR}/evidence");
     let _ = std::fs::create_dir_all(&dir);
-    let path = format!("{dir}/{}.json", prop.id);
+    // a property served by two engines (C08) writes partial evidence files that the last engine merges
+    let name = std::env::var("VERIF_EVIDENCE_NAME").unwrap_or_else(|_| prop.id.to_string());
+    let path = format!("{dir}/{name}.json");
     if let Err(e) = std::fs::write(&path, serde_json::to_string_pretty(&ev).unwrap()) {
         println!("HARNESS-PROBLEM: cannot write evidence {path}: {e}");
         exit = exit.max(2);
